@@ -354,31 +354,34 @@ def main():
         cov["gen"] = gen_info
 
         # ---- PROOF
-        module = cfgp["lean_props"]
-        ok, log = lake_build([module, driver_name(prop)])
+        modules = cfgp["lean_props"] if isinstance(cfgp["lean_props"], list) else [cfgp["lean_props"]]
+        ok, log = lake_build(modules + [driver_name(prop)])
         axioms = {}
         if not ok:
-            # which file failed?
             errs = re.findall(r"error: (\S+\.lean:\d+:\d+: .*)", log)
-            broken.append(("PROOF", "lake build %s" % module, "\n".join(errs[:8]) or log[-1500:]))
-            # driver may still be buildable (model unaffected)
+            broken.append(("PROOF", "lake build %s" % " ".join(modules), "\n".join(errs[:8]) or log[-1500:]))
+            # the driver may still be buildable (model unaffected); modules that still build are audited
             okd, _ = lake_build([driver_name(prop)])
         else:
             okd = True
-            axioms, problems = audit(module, tier == "thorough")
-            for pr in problems:
-                broken.append(("PROOF", "axiom audit", pr))
+        for module in modules:
+            okm = ok or lake_build([module])[0]
+            if okm:
+                ax, problems = audit(module, tier == "thorough")
+                axioms.update(ax)
+                for pr in problems:
+                    broken.append(("PROOF", "axiom audit", pr))
         hits = forbidden_scan()
         for h in hits:
             broken.append(("PROOF", "forbidden token", h))
-        names = theorems_of(module)
+        names = [n for m in modules for n in theorems_of(m)]
         cov["obligations"] = len(names) + len(cfgp.get("gen", []))
-        cov["discharged"] = (len([n for n in names if n in axioms and set(axioms[n]) <= ALLOWED_AXIOMS]) if ok else 0) + \
+        cov["discharged"] = len([n for n in names if n in axioms and set(axioms[n]) <= ALLOWED_AXIOMS]) + \
             len([u for u, i in gen_info.items() if i["ok"]])
         cov["theorems"] = names
         cov["axioms"] = axioms
-        cov["checker_cmd"] = "cd lean && lake build %s && lake env lean .work/audit/%s.lean  (#print axioms per theorem)%s" % (
-            module, module.split(".")[-1], "; lake env leanchecker " + module if tier == "thorough" else "")
+        cov["checker_cmd"] = "cd lean && lake build %s && lake env lean ../.work/audit/<Module>.lean  (#print axioms for every theorem)%s" % (
+            " ".join(modules), "; lake env leanchecker <Module>" if tier == "thorough" else "")
         cov["trusted_base"] = cfgp["trusted_base"]
 
         # ---- CORR + ORACLE
